@@ -30,7 +30,7 @@ if [ -z "$place" ]; then echo "$P-$M: NO-DEMO-PLACE"; exit 5; fi
 cp $SRC/demo_test.go $W/$place
 pkg=./$(dirname $place)
 tests=$(grep -oE '^func (Test[A-Za-z0-9_]+)' $SRC/demo_test.go | awk '{print $2}' | paste -sd'|')
-race=""; grep -q -- '-race' $SRC/meta.json && race="-race"
+race=$(python3 -c "import json;m=json.load(open('$SRC/meta.json'));r=m.get('run');print('-race' if (r is None and '-race' in json.dumps(m)) or (r and '-race' in r) else '')")
 with=$(timeout 300 go test $race -vet=off -count=1 -timeout 120s -run "^($tests)\$" $pkg 2>&1 | grep -E '^(ok|FAIL|---|panic|WARNING: DATA RACE)' | head -5 | tr '\n' ' ')
 git apply -R /tmp/seedpatch.$$ 2>/dev/null || { git checkout -q -- . ; }
 without=$(timeout 300 go test $race -vet=off -count=1 -timeout 120s -run "^($tests)\$" $pkg 2>&1 | grep -E '^(ok|FAIL|---|panic|WARNING: DATA RACE)' | head -3 | tr '\n' ' ')
